@@ -6,6 +6,7 @@ import (
 	"bytes"
 	"context"
 	"crypto/sha256"
+	"encoding/hex"
 	"encoding/json"
 	"errors"
 	"fmt"
@@ -23,6 +24,7 @@ import (
 	"github.com/lightninglabs/lndclient"
 	"github.com/lightninglabs/pool"
 	"github.com/lightninglabs/pool/account"
+	"github.com/lightninglabs/pool/auctioneer"
 	"github.com/lightninglabs/pool/auctioneerrpc"
 	"github.com/lightninglabs/pool/clientdb"
 	"github.com/lightninglabs/pool/internal/test"
@@ -30,6 +32,7 @@ import (
 	"github.com/lightninglabs/pool/sidecar"
 	"github.com/lightninglabs/pool/terms"
 	"github.com/lightningnetwork/lnd/keychain"
+	"google.golang.org/grpc"
 )
 
 func init() { props["C16"] = runC16 }
@@ -146,6 +149,56 @@ func newC16Keys() *c16Keys {
 	}
 	k.offered = buf.Bytes()
 	return k
+}
+
+// withID returns the keys for a negotiation about a ticket with the given ID
+// (the offer is signed again for it).
+func (k *c16Keys) withID(id [8]byte) *c16Keys {
+	c := *k
+	c.baseID = id
+	if c.otherID == id {
+		c.otherID[7] ^= 0x55
+	}
+	t, err := sidecar.NewTicket(c.capacity, 0, 2016, c.provPub, true, false, false)
+	if err != nil {
+		panic(err)
+	}
+	t.ID = id
+	if err := sidecar.SignOffer(context.Background(), t, c.provLoc, c.signer); err != nil {
+		panic(err)
+	}
+	t.Order = &sidecar.Order{BidNonce: c.bidNonce}
+	var buf bytes.Buffer
+	if err := sidecar.SerializeTicket(&buf, t); err != nil {
+		panic(err)
+	}
+	c.offered = buf.Bytes()
+	return &c
+}
+
+// c16RandomID draws a ticket ID from the full range (tickets get random IDs),
+// with the neighbourhood of the key of the nested "sidecar-bids" bucket of the
+// sidecars bucket as boundary values.
+func c16RandomID(r *Run) [8]byte {
+	var id [8]byte
+	for i := range id {
+		id[i] = byte(r.Rng.Intn(256))
+	}
+	switch r.Rng.Intn(8) {
+	case 0:
+		copy(id[:], "sidecar-")
+	case 1:
+		copy(id[:], "sidecar.")
+	case 2:
+		copy(id[:], "sidecar,")
+	case 3:
+		id[0] = 0x73
+	case 4:
+		id[0] = 0x74
+	case 5:
+		id[0] = 0xff
+	}
+	return id
 }
 
 func (k *c16Keys) newBid() *order.Bid {
@@ -317,7 +370,8 @@ type c16Side struct {
 	db         *clientdb.DB
 	neg        *pool.SidecarNegotiator
 	gen        *c16Gen
-	registered bool // entry in SidecarAcceptor.negotiators
+	registered bool              // entry in SidecarAcceptor.negotiators
+	rpc        *pool.VerifC16RPC // minimal real rpcServer + acceptor registry of this node
 	afterErr   int32
 	initFail   int32 // the next mailbox (re-)initialisation fails
 	started    int32 // the reader's first RecvSidecarPkt was seen
@@ -554,6 +608,18 @@ func (s *c16Side) SendSidecarPkt(_ context.Context, pkt *sidecar.Ticket, provide
 	}
 	s.w.mu.Unlock()
 	return nil
+}
+
+// c16FakeAuct is the auctioneer side of plain request/response RPCs: order
+// cancellations are accepted.
+type c16FakeAuct struct {
+	auctioneerrpc.ChannelAuctioneerClient
+}
+
+func (c16FakeAuct) CancelOrder(context.Context, *auctioneerrpc.ServerCancelOrderRequest,
+	...grpc.CallOption) (*auctioneerrpc.ServerCancelOrderResponse, error) {
+
+	return &auctioneerrpc.ServerCancelOrderResponse{}, nil
 }
 
 type c16Msg struct {
@@ -880,6 +946,7 @@ func (w *c16World) startNegotiator(prov bool, first bool) {
 	s.gen = &c16Gen{crashAfter: -1}
 	s.neg = nil
 	s.registered = false
+	s.rpc = pool.VerifC16NewRPC(s.db, auctioneer.VerifC16ClientWith(c16FakeAuct{}))
 	tickets, err := s.db.Sidecars()
 	if err != nil {
 		panic(err)
@@ -906,6 +973,9 @@ func (w *c16World) startNegotiator(prov bool, first bool) {
 		}
 		s.neg = pool.NewSidecarNegotiator(cfg)
 		s.registered = true
+		if err := s.rpc.Register(ticket, s.neg); err != nil {
+			panic(err)
+		}
 		atomic.StoreInt32(w.waiting[b01(prov)], 0)
 		atomic.StoreInt32(&s.started, 0)
 		if err := s.neg.Start(); err != nil {
@@ -1083,27 +1153,6 @@ func (w *c16World) finalize(prov bool, st int) string {
 	return w.takeEffs() + "|" + w.summary()
 }
 
-// finalizeTicket mirrors SidecarAcceptor.FinalizeTicket /
-// finalizeTicketIfExists: the negotiator registered for the ticket (if any) is
-// told and removed from the map.
-func (w *c16World) finalizeTicket(prov bool, st sidecar.State) {
-	s := w.side(prov)
-	if s.neg == nil || !s.registered {
-		return
-	}
-	s.registered = false
-	done := make(chan struct{})
-	go func() {
-		s.neg.TicketExecuted(st, false)
-		close(done)
-	}()
-	select {
-	case <-done:
-	case <-time.After(5 * time.Second):
-		w.effs = append(w.effs, "HANG")
-	}
-}
-
 // dbWrite is a store write done by the RPC server (not by the negotiator).
 func (w *c16World) dbWrite(prov bool, t *sidecar.Ticket) error {
 	s := w.side(prov)
@@ -1116,70 +1165,34 @@ func (w *c16World) dbWrite(prov bool, t *sidecar.Ticket) error {
 	return err
 }
 
-// setTicketStateForOrder mirrors rpcServer.setTicketStateForOrder.
-func (w *c16World) setTicketStateForOrder(prov bool, st sidecar.State, nonce order.Nonce) error {
-	s := w.side(prov)
-	tickets, err := s.db.Sidecars()
-	if err != nil {
-		return err
+// bounded runs f with a time limit (a mutant must never stall the harness).
+func (w *c16World) bounded(f func() error) (error, bool) {
+	done := make(chan error, 1)
+	go func() { done <- f() }()
+	select {
+	case err := <-done:
+		return err, true
+	case <-time.After(5 * time.Second):
+		w.effs = append(w.effs, "HANG")
+		return nil, false
 	}
-	for _, ticket := range tickets {
-		if ticket.Order == nil || order.Nonce(ticket.Order.BidNonce) != nonce {
-			continue
-		}
-		ticket.State = st
-		if err := w.dbWrite(prov, ticket); err != nil {
-			return err
-		}
-		w.finalizeTicket(prov, ticket.State)
-	}
-	return nil
 }
 
-// cancelRPC mirrors rpcServer.CancelSidecar (incl. the sidecar part of
-// rpcServer.CancelOrder; the auctioneer call is assumed to succeed).
+// cancelRPC calls the REAL rpcServer.CancelSidecar (incl. the real CancelOrder
+// and setTicketStateForOrder) of a minimal rpcServer over the node's real
+// database and a real SidecarAcceptor registry; only the auctioneer's answer
+// to the order cancellation is faked. An RPC that fails without having done
+// anything is reported as not-enabled.
 func (w *c16World) cancelRPC(prov bool) string {
 	s := w.side(prov)
-	tickets, err := s.db.SidecarsByID(w.k.baseID)
-	if err != nil {
-		panic(err)
-	}
-	var ticket *sidecar.Ticket
-	for _, t := range tickets {
-		if t.State.IsTerminal() {
-			continue
-		}
-		ticket = t
-		break
-	}
-	if ticket == nil {
+	before := w.k.tok(w.persisted(prov))
+	err, _ := w.bounded(func() error { return s.rpc.CancelSidecar(w.k.baseID[:]) })
+	w.settleOrNote(prov)
+	effs := w.takeEffs()
+	if err != nil && effs == "-" && before == w.k.tok(w.persisted(prov)) {
 		return "not-enabled"
 	}
-	if ticket.State >= sidecar.StateOrdered && ticket.Order != nil {
-		nonce := order.Nonce(ticket.Order.BidNonce)
-		o, err := s.db.GetOrder(nonce)
-		if err != nil {
-			return "not-enabled"
-		}
-		switch o.Details().State {
-		case order.StateCanceled:
-		case order.StateExecuted, order.StateExpired, order.StateFailed:
-			return "not-enabled"
-		default:
-			if err := s.db.UpdateOrder(nonce, order.StateModifier(order.StateCanceled)); err != nil {
-				panic(err)
-			}
-			if err := w.setTicketStateForOrder(prov, sidecar.StateCanceled, nonce); err != nil {
-				w.settleOrNote(prov)
-				return w.takeEffs() + "|" + w.summary()
-			}
-		}
-	}
-	ticket.State = sidecar.StateCanceled
-	w.finalizeTicket(prov, ticket.State)
-	_ = w.dbWrite(prov, ticket)
-	w.settleOrNote(prov)
-	return w.takeEffs() + "|" + w.summary()
+	return effs + "|" + w.summary()
 }
 
 // completeRPC mirrors what happens on a node when the batch containing the
@@ -1197,7 +1210,8 @@ func (w *c16World) completeRPC(prov bool) string {
 		if _, err := s.db.GetOrder(w.k.bidNonce); err != nil {
 			return "not-enabled"
 		}
-		_ = w.setTicketStateForOrder(true, sidecar.StateCompleted, w.k.bidNonce)
+		// rpcServer, on the finalization of the batch the order was in
+		w.bounded(func() error { return s.rpc.SetTicketStateForOrder(sidecar.StateCompleted, w.k.bidNonce) })
 	} else {
 		ticket, ok := w.pendingR[w.k.bidNonce]
 		if !ok {
@@ -1206,7 +1220,8 @@ func (w *c16World) completeRPC(prov bool) string {
 		ticket.State = sidecar.StateCompleted
 		_ = w.dbWrite(false, ticket)
 		delete(w.pendingR, w.k.bidNonce)
-		w.finalizeTicket(false, ticket.State)
+		// SidecarAcceptor.matchFinalize -> finalizeTicketIfExists (real registry)
+		w.bounded(func() error { s.rpc.Acc.FinalizeTicket(ticket); return nil })
 	}
 	w.settleOrNote(prov)
 	return w.takeEffs() + "|" + w.summary()
@@ -1434,10 +1449,25 @@ type c16Result struct {
 	hang  bool
 	final string
 	extra string // not in the summary: pending expectation, stored order
+	id    string // the ticket ID of the run (hex)
 }
 
 // runSchedule executes ops on a fresh pair of real negotiators.
 func c16RunSchedule(r *Run, k *c16Keys, ops []string) c16Result {
+	id := c16RandomID(r)
+	if len(ops) > 0 && strings.HasPrefix(ops[0], "id ") {
+		// a recorded case names its ticket ID
+		if b, err := hex.DecodeString(strings.TrimPrefix(ops[0], "id ")); err == nil && len(b) == 8 {
+			copy(id[:], b)
+		}
+		ops = ops[1:]
+	}
+	k = k.withID(id)
+	if id[0] > 0x73 {
+		r.Count("run/id-after-bids-bucket")
+	} else {
+		r.Count("run/id-before-bids-bucket")
+	}
 	w := newC16World(r, k)
 	defer w.close()
 	o := &c16Oracle{w: w, lastState: map[string]uint8{}, ended: map[string]bool{},
@@ -1489,10 +1519,20 @@ func c16RunSchedule(r *Run, k *c16Keys, ops []string) c16Result {
 			// receive error while the server stays unreachable for the
 			// first reconnect attempt, then comes back
 			out = w.recvErr(prov, true)
-		case "restart":
-			out = w.restart(prov)
-		case "crash":
-			out = w.crash(prov, atoi(2), atoi(3))
+		case "restart", "crash":
+			if f[0] == "restart" {
+				out = w.restart(prov)
+			} else {
+				out = w.crash(prov, atoi(2), atoi(3))
+			}
+			emit(op, out)
+			// a restart resumes every non-terminal auto ticket from the store
+			if pt := w.persisted(prov); out != "not-enabled" && pt != nil && !pt.State.IsTerminal() && !w.alive(prov) {
+				o.fail("%s was restarted with a stored ticket in the non-terminal state %d but no negotiator was "+
+					"resumed for it: the negotiation (and any cancellation by the other side) can never continue (%q)",
+					f[1], pt.State, op)
+			}
+			continue
 		case "fin":
 			out = w.finalize(prov, atoi(2))
 			emit(op, out)
@@ -1561,6 +1601,7 @@ func c16RunSchedule(r *Run, k *c16Keys, ops []string) c16Result {
 	res.bad = o.bad
 	res.final = w.summary()
 	res.extra = fmt.Sprintf("pend=%d", len(w.pendingR))
+	res.id = hex.EncodeToString(id[:])
 	return res
 }
 
@@ -2112,7 +2153,7 @@ func runC16(r *Run) {
 		}
 		if res.bad != "" {
 			r.Count("oracle/violation")
-			r.Violate(res.bad, "C16/safety", ops)
+			r.Violate(res.bad, "C16/safety", append([]string{"id " + res.id}, ops...))
 		}
 	}
 	runRec := func(kind string) func(ops []string) c16Result {
